@@ -1,3 +1,4 @@
+#![allow(dead_code)]
 //! Plumbing shared by all property harnesses: PRNG, output files, panic capture.
 use std::collections::BTreeMap;
 use std::fs::File;
@@ -136,4 +137,38 @@ pub fn hex(b: &[u8]) -> String {
 
 pub fn unhex(s: &str) -> Option<Vec<u8>> {
     hex::decode(s).ok()
+}
+
+/// Entry point shared by the per-property binaries:
+///   <bin> run <quick|thorough> <seed> <outdir>
+///   <bin> replay <file> <outdir>          (op lines, one per line; `#` comments)
+pub fn main_with(run: fn(&mut Out, &mut Rng, bool), one: fn(&mut Out, &str)) {
+    let args: Vec<String> = std::env::args().collect();
+    quiet_panics();
+    match args.get(1).map(|s| s.as_str()) {
+        Some("run") if args.len() >= 5 => {
+            let thorough = args[2] == "thorough";
+            let seed: u64 = args[3].parse().expect("seed");
+            let mut out = Out::new(&args[4]);
+            let mut rng = Rng::new(seed);
+            run(&mut out, &mut rng, thorough);
+            out.finish();
+        }
+        Some("replay") if args.len() >= 4 => {
+            let text = std::fs::read_to_string(&args[2]).expect("replay file");
+            let mut out = Out::new(&args[3]);
+            for line in text.lines() {
+                let line = line.trim();
+                if line.is_empty() || line.starts_with('#') {
+                    continue;
+                }
+                one(&mut out, line);
+            }
+            out.finish();
+        }
+        _ => {
+            eprintln!("usage: run <tier> <seed> <outdir> | replay <file> <outdir>");
+            std::process::exit(2);
+        }
+    }
 }
